@@ -15,7 +15,7 @@ print("div", len(res["div"]), [ (d["step"], d["a"], d["what"]) for d in res["div
 for line in open(traces[0]):
     r = json.loads(line)
     for e in r.get("ev", []):
-        if e.get("e") in ("ClientResp", "ClientInvoke"):
+        if e.get("e") in ("ClientResp", "ClientInvoke", "LeaderNotify"):
             print(r.get("step"), json.dumps(e))
 print(wd)
 if len(sys.argv) > 2:
